@@ -18,10 +18,10 @@ import (
 
 func init() {
 	register(&propDef{
-		ID:    "C10",
-		Level: "proof",
+		ID:      "C10",
+		Level:   "proof",
 		Explain: "Proof, for the stated clauses only, that the hand-written ClientHello handling cannot read out of bounds or panic and never buffers more than the first TLS record: (M1) every index and slice expression in clientHelloBufferSize, readServerName and clientHelloMsg.unmarshal is proved in bounds by the Go compiler's prove pass (go build -gcflags='-l -d=ssa/check_bce/debug=1' reports every bounds check it could NOT eliminate; obligations are counted from the AST, discharged = those without a report); (M2) those functions contain no other panic source (no type assertion, integer division, map write, explicit panic, nil-able pointer dereference or call to a non-total function); (M3) the one residual bounds check of the SNI handler, data[5:], is discharged by the difference-bound prover: on every nil-error return clientHelloBufferSize returns >= 10; (S1) on every nil-error return result - recordLength <= 5 and result <= 16389, with recordLength the value assembled from header bytes 3-4 (the buffer never exceeds the first TLS record); (S2) the SNI handler allocates exactly that many bytes, fills them with the only consuming read before the route lookup (io.ReadFull), looks the route up under the parser's result, and returns on the !ok and host == \"\" edges before any lookup or dial. NOT covered by this claim: equality of the extracted name with crypto/tls's on well-formed hellos (semantic equivalence of two parsers).",
-		Run:   runC10,
+		Run:     runC10,
 		Trusted: []string{"the Go compiler's prove pass is sound (a bounds check it eliminates cannot fail)", "the checker's difference-bound prover (Bellman-Ford over branch facts and SSA definitions)", "io.ReadFull fills the whole buffer or returns an error"},
 		Mutants: []mutant{
 			{Name: "delete one length test in unmarshal", File: "proxy/tcp/tls_clienthello.go", Old: "\t\tif len(data) < 4 {\n\t\t\treturn false\n\t\t}\n", New: "", Expect: "C10.M1"},
